@@ -95,15 +95,17 @@ TArgs == IF Rich THEN {TInt, TTup(<<TInt, TBool>>), TNone, TArr(TFloat, NatC("2"
 NArgs == IF Rich THEN {NatC("0"), NatC("3")} ELSE {NatC("3")}
 KArgs == IF Rich THEN {CVal(TInt, "5"), CVal(TInt, "-1")} ELSE {CVal(TInt, "5")}
 
+\* the constants a const parameter of (closed) type ty can be instantiated with
+ConstOpts(ty) ==
+    IF ty = TNat THEN {ArgC(c) : c \in NArgs}
+    ELSE IF ty = TInt THEN {ArgC(c) : c \in KArgs}
+    ELSE {ArgC(CVal(Unmark(ty), Tok(ty)))}
 Options(p, pre) ==
     {NoArg} \cup
     IF IsTypeParam(p) THEN {a \in {ArgT(t) : t \in TArgs} : ArgFits(p, a)}
-    ELSE IF p[4] = TNat THEN {ArgC(c) : c \in NArgs}
-    ELSE IF p[4] = TInt THEN {ArgC(c) : c \in KArgs}
-    ELSE IF p[4][1] = "bv"
-         THEN (IF pre[p[4][2] + 1] = NoArg THEN {}
-               ELSE {ArgC(CVal(pre[p[4][2] + 1][2], Tok(pre[p[4][2] + 1][2])))})
-    ELSE {ArgC(CVal(Unmark(p[4]), Tok(p[4])))}
+    ELSE IF p[4][1] = "bv"         \* c: T - only once T is known (here: in the same vector)
+         THEN (IF pre[p[4][2] + 1] = NoArg THEN {} ELSE ConstOpts(pre[p[4][2] + 1][2]))
+    ELSE ConstOpts(p[4])
 
 RECURSIVE ArgVecs(_, _)
 ArgVecs(params, pre) ==
